@@ -170,7 +170,7 @@ Theorem C17_vfs_entry_readable : forall pbop fsk prefix names t nm L,
   fsk pbop = KFile -> eqs (extension pbop) pbo_ext = true ->
   In nm names ->
   pcomps (entry_path repaired prefix nm) = L -> L <> [] -> Forall pseg L ->
-  relative_path (lexnorm (SL :: vfull_of L)) = entry_path repaired prefix nm ->
+  pbo_wanted (vfull_of L) = entry_path repaired prefix nm ->
   trim (cleanse (vfull_of L)) = vfull_of L ->
   get_info repaired fsk t (vfull_of L) [] [] = Ok (Some (pbop, vfull_of L)) /\
   exists j nm', read_file repaired fsk t pbop (vfull_of L) = Ok (RdPbo (lexnorm pbop) j) /\
@@ -219,7 +219,7 @@ Proof. vm_compute. repeat split; reflexivity. Qed.
 Example ex_pbo_hyps :
   let prefix := zs "x\y" in let nm := zs "fn\b.sqf" in let L := [zs "x"; zs "y"; zs "fn"; zs "b.sqf"] in
   pcomps (entry_path repaired prefix nm) = L /\
-  relative_path (lexnorm (SL :: vfull_of L)) = entry_path repaired prefix nm /\
+  pbo_wanted (vfull_of L) = entry_path repaired prefix nm /\
   trim (cleanse (vfull_of L)) = vfull_of L /\ ex_fsk (zs "/tmp/@@/a.pbo") = KFile /\
   eqs (extension (zs "/tmp/@@/a.pbo")) pbo_ext = true.
 Proof. vm_compute. repeat split; reflexivity. Qed.
